@@ -252,6 +252,10 @@ func runOnce(c Case) ([]vk.Violation, map[string]bool) {
 	var xmu sync.Mutex
 	var extras []*recProcessor
 	mine := make([][]*recProcessor, len(c.Progs))
+	// when each extra processor's Register call returned / its Unregister call
+	// was issued (never = still registered at the end)
+	regEnd := map[*recProcessor]int64{}
+	unregStart := map[*recProcessor]int64{}
 
 	spans := make([]trace.Span, c.Spans)
 	ctxs := make([]context.Context, c.Spans)
@@ -312,8 +316,14 @@ func runOnce(c Case) ([]vk.Violation, map[string]bool) {
 				xmu.Unlock()
 				mine[g] = append(mine[g], x)
 				tp.RegisterSpanProcessor(x)
+				xmu.Lock()
+				regEnd[x] = clock.Tick()
+				xmu.Unlock()
 			case "unregproc":
 				if n := len(mine[g]); n > 0 {
+					xmu.Lock()
+					unregStart[mine[g][n-1]] = clock.Tick()
+					xmu.Unlock()
 					tp.UnregisterSpanProcessor(mine[g][n-1])
 					mine[g] = mine[g][:n-1]
 				} else {
@@ -393,12 +403,25 @@ func runOnce(c Case) ([]vk.Violation, map[string]bool) {
 				}
 			}
 		}
-		for _, x := range extras {
+		for xi, x := range extras {
 			x.mu.Lock()
-			if n := len(x.ends[sid]); n > 1 {
+			n := len(x.ends[sid])
+			x.mu.Unlock()
+			if n > 1 {
 				bad("delivery_count", "span %d was delivered %d times to a processor that was registered/unregistered concurrently", s, n)
 			}
-			x.mu.Unlock()
+			// a processor whose registration had returned before the first End
+			// of the span was issued, and whose Unregister (if any) was issued
+			// only after an End had returned, was registered during the whole
+			// ending of the span: it must have got the span
+			re, ok := regEnd[x]
+			us, unreg := unregStart[x]
+			if ok && enders[s] > 0 && re < firstEndIssue[s] && (!unreg || us > firstEndReturn[s]) && n != 1 {
+				bad("registered_processor_missed_span", "span %d was delivered %d time(s) to extra processor %d although its RegisterSpanProcessor call had returned (t=%d) before the first End was issued (t=%d) and it was not unregistered before an End returned", s, n, xi, re, firstEndIssue[s])
+			}
+			if ok && enders[s] > 0 && re < firstEndIssue[s] {
+				classes["extra_processor_registered_before_end"] = true
+			}
 		}
 		if ref == nil {
 			continue
